@@ -360,7 +360,7 @@ class DrmOracle:
                                                   f"{ms_content_key(kid).hex()} for {kid.hex()}; {where}")
         la = q.get("playready__la_url")
         if la and f["la_url"] is not None:
-            want = urllib.parse.unquote_plus(la)       # the option is an escaped URL: the server unquotes it again
+            want = la                                  # the value the query string carries, decoded once
             sim.check("c11-la-url")
             if "{cfgs}" in want:
                 head, tail = want.split("{cfgs}", 1)
